@@ -27,7 +27,7 @@ CHECKS = {
             "DESIGN.md §5 C04", "stepsim"),
     "C05": ("fault_enumeration",
             "deterministic simulation with crash-point enumeration: every durable-write boundary of block application on a real follower (nested depth 2), restart, seeded re-delivery order (or, in DA-driven families, the real RetrieveLoop + SyncLoop over a seeded DA layout), prefix-equality oracle",
-            "For seeded chains every durable-write boundary of the triggering block application (1-3 blocks applied at once) is a crash point and, for each, every boundary of the seeded re-delivery phase is a nested crash point; after every restart the image must have a proposer-identical block for every height up to the recorded chain height and a state for exactly that height; finally the follower must reach the proposer's chain. A third of the families are DA-driven: the chain lies on the simulated DA layer (header and data of a block at different heights, later headers below earlier data), the real RetrieveLoop and SyncLoop scan and apply it, crash points cut the durable writes of that phase, in-memory queues die with the process and the scan alone must bring the restarted node to the proposer's height. Exhaustive over boundaries of the enumerated applications, sampled over chains.",
+            "For seeded chains every durable-write boundary of the triggering block application (1-3 blocks applied at once) is a crash point and, for each, every boundary of the seeded re-delivery phase is a nested crash point; after every restart the image must have a proposer-identical block for every height up to the recorded chain height and a state for exactly that height; finally the follower must reach the proposer's chain. A third of the families are DA-driven: the chain lies on the simulated DA layer (header and data of a block at different heights, later headers below earlier data), the real RetrieveLoop and SyncLoop scan and apply it, crash points cut the durable writes of that phase, in-memory queues die with the process and the scan alone must bring the restarted node to the proposer's height. An eighth of the families are whole-node families: a real full node (node.FullNode with P2P client, go-header stores, DA retrieve, P2P store loops, sync, DA includer) follows a real sequencer node over a libp2p mocknet; its (k+1)-th durable write kills it, and restarted on the durable image it must stay up and reach the sequencer's height with an identical chain. Exhaustive over boundaries of the enumerated applications, sampled over chains.",
             "Crash = process death with ordered durable writes and atomic batches.",
             "DESIGN.md §5 C05", "stepsim"),
     "C11": ("fault_enumeration",
